@@ -10,3 +10,6 @@ def run(rep, W, ctx):
     H.c14_tables(rep, W)
     H.handler_args(rep, W)
     H.route_params_plain(rep, W)
+    # "for every request the status .. carries precisely the protocol outcome": a response that is NOT derived from the
+    # operation's outcome is one of the tabled refusals (a 4xx, decided before any storage access, for a listed reason)
+    H.c15_refuse(rep, W)
